@@ -12,3 +12,11 @@ P.trusted += F.P.trusted
 for t in F.P.tasks:
     if t.name.startswith("frames.move_to_com.") and "variation" in t.name:
         P.tasks.append(Task(P, "frame_shift." + t.name, t.fn, t.func, files=t.files or F.P.files, timeout=t.timeout, order=t.order, z3_ms=t.z3_ms, polyid_s=t.polyid_s))
+
+
+# the tangent map of the WHFast Kepler step uses its own Stumpff routine (stumpff_cs: c0..c5); its series, argument reduction
+# and quadrupling recurrences are under contract in C03 and re-registered here
+from contracts import C03_kepler as K3
+for t in K3.P.tasks:
+    if t.name.startswith("stumpff_cs.") or t.name == "stumpff.algebraic_relations" or t.name.startswith("stiefel_Gs."):
+        P.tasks.append(Task(P, "kepler_tangent_map." + t.name, t.fn, t.func, files=t.files or K3.P.files, timeout=t.timeout, order=t.order, z3_ms=t.z3_ms, polyid_s=t.polyid_s))
